@@ -277,11 +277,23 @@ def check_spec(spec, with_fd=True, loss=None):
             V.append(("hessian-asymmetric", "hessian(theta) is not symmetric: %.3g (%s)" % (np.abs(H - H.T).max(), shape)))
     # ---------------------------------------------------------------- independent confirmations of the reference itself
     if with_fd:
-        Hc = c20ref.fd_hessian_of_cost(lambda t_: c20ref.ref_cost(rs, t_), th, 2e-3)
+        try:
+            Hc = c20ref.fd_hessian_of_cost(lambda t_: c20ref.ref_cost(rs, t_), th, 2e-3)
+        except RuntimeError as e:           # the reference has no solution at a neighbouring theta
+            info["ref_unconfirmed"] = str(e)[:120]
+            return [], info
         info["err"]["ref_vs_fd_cost"] = float(np.abs(Hc - R["H_true"]).max()) / sc_h
         if not close(Hc, R["H_true"], 50 * TOL_FD, sc_h):
-            raise common.InternalError("reference Hessian disagrees with second differences of the reference cost: %g"
-                                       % info["err"]["ref_vs_fd_cost"])
+            # second differences carry an O(h^2) error of their own (large where the third derivatives are): halve the step and
+            # extrapolate before concluding anything
+            Hc2 = c20ref.fd_hessian_of_cost(lambda t_: c20ref.ref_cost(rs, t_), th, 1e-3)
+            Hx = (4 * Hc2 - Hc) / 3
+            info["err"]["ref_vs_fd_cost"] = float(np.abs(Hx - R["H_true"]).max()) / sc_h
+            if not close(Hx, R["H_true"], 50 * TOL_FD, sc_h):
+                # the reference could not be confirmed on this input: nothing is concluded from it (counted by the caller, which
+                # stops with an internal error when this is more than an isolated case)
+                info["ref_unconfirmed"] = "second differences of the reference cost: %g" % info["err"]["ref_vs_fd_cost"]
+                return [], info
         # derivative of the REAL gradient (only meaningful when the real gradient is the gradient: that is property C07)
         try:
             g = np.asarray(L.gradient(th), dtype=float)
@@ -291,8 +303,12 @@ def check_spec(spec, with_fd=True, loss=None):
                 Hg = c20ref.richardson_jac(lambda t_: L.gradient(t_), th, 2e-3)
                 info["err"]["richardson_real_gradient"] = float(np.abs(Hg - R["H_true"]).max()) / sc_h
                 if not close(Hg, R["H_true"], TOL_FD, sc_h):
-                    raise common.InternalError("Richardson differences of the real gradient disagree with the reference Hessian "
-                                               "although the gradient itself agrees: %g" % info["err"]["richardson_real_gradient"])
+                    Hg = c20ref.richardson_jac(lambda t_: L.gradient(t_), th, 5e-4)
+                    info["err"]["richardson_real_gradient"] = float(np.abs(Hg - R["H_true"]).max()) / sc_h
+                    if not close(Hg, R["H_true"], TOL_FD, sc_h):
+                        info["ref_unconfirmed"] = ("Richardson differences of the real gradient (which agrees with the reference gradient): %g"
+                                                   % info["err"]["richardson_real_gradient"])
+                        return [], info
         except common.InternalError:
             raise
         except Exception as e:      # noqa: B902
@@ -429,8 +445,15 @@ def run_search(ck):
         for cls, what in omitted_theta_check(spec):
             ck.violation(cls, what, dict(kind="jtj-omitted-theta", spec=spec, cls=cls))
     ck.notes["search_sequence_cases"] = len(seq_specs)
+    unconfirmed = []
     for spec in specs:
         V, info = check_spec(spec, with_fd=True)
+        if info.get("ref_unconfirmed"):
+            unconfirmed.append(info["ref_unconfirmed"])
+            ck.notes["reference_unconfirmed_inputs"] = unconfirmed[:5]
+            if len(unconfirmed) > max(2, len(specs) // 50):
+                raise common.InternalError("the reference could not be confirmed on %d inputs: %s" % (len(unconfirmed), unconfirmed[:3]))
+            continue
         key = "%s/%dx%d/%s%s" % (info.get("model_class"), len(spec["states"]), len(spec["params"]), spec.get("weight_kind"),
                                  "/" + "+".join(info["order_class"]) if info.get("order_class") else "")
         dist[key] = dist.get(key, 0) + 1
